@@ -5,6 +5,10 @@ use crate::cli::utils::template::{
 use crate::error::ZervError;
 use crate::utils::constants::formats;
 use crate::version::Zerv;
+use crate::version::zerv::{
+    Component,
+    Var,
+};
 use crate::version::pep440::PEP440;
 use crate::version::semver::SemVer;
 
@@ -37,7 +41,10 @@ impl OutputFormatter {
     /// Generate base output according to the specified format
     fn format_base_output(zerv_object: &Zerv, output_format: &str) -> Result<String, ZervError> {
         match output_format {
-            formats::PEP440 => Ok(PEP440::from(zerv_object.clone()).to_string()),
+            formats::PEP440 => {
+                Self::ensure_pep440_representable(zerv_object)?;
+                Ok(PEP440::from(zerv_object.clone()).to_string())
+            }
             formats::SEMVER => Ok(SemVer::from(zerv_object.clone()).to_string()),
             formats::ZERV => Ok(zerv_object.to_string()),
             format => Err(ZervError::UnknownFormat(format!(
@@ -46,6 +53,42 @@ impl OutputFormatter {
                 formats::SUPPORTED_FORMATS.join(", ")
             ))),
         }
+    }
+
+    /// PEP440 numbers are u32: a version number that does not fit must be rejected instead of
+    /// being silently dropped or moved to the local segment by the conversion
+    fn ensure_pep440_representable(zerv_object: &Zerv) -> Result<(), ZervError> {
+        let vars = &zerv_object.vars;
+        let schema = &zerv_object.schema;
+        let numbers = schema
+            .core()
+            .iter()
+            .chain(schema.extra_core().iter())
+            .filter_map(|component| match component {
+                Component::Var(Var::Major) => Some(("major", vars.major)),
+                Component::Var(Var::Minor) => Some(("minor", vars.minor)),
+                Component::Var(Var::Patch) => Some(("patch", vars.patch)),
+                Component::Var(Var::Epoch) => Some(("epoch", vars.epoch)),
+                Component::Var(Var::Post) => Some(("post", vars.post)),
+                Component::Var(Var::Dev) => Some(("dev", vars.dev)),
+                Component::Var(Var::PreRelease) => Some((
+                    "pre-release number",
+                    vars.pre_release.as_ref().and_then(|pr| pr.number),
+                )),
+                _ => None,
+            });
+
+        for (name, value) in numbers {
+            if let Some(number) = value
+                && number > u32::MAX as u64
+            {
+                return Err(ZervError::InvalidVersion(format!(
+                    "{name} {number} cannot be represented in PEP440 (maximum {})",
+                    u32::MAX
+                )));
+            }
+        }
+        Ok(())
     }
 
     /// Get list of supported output formats
